@@ -7,6 +7,18 @@ HOOK_COMMITS = []
 
 # id -> (technique, level text, level note, design ref)
 CLAIMED = {
+ "C06": ("runtime monitor: seeded generators for every wire Repr type; emit into zero/0xFF/garbage buffers of the declared length, parse back and compare; mutated-but-parsable packets re-emitted and re-parsed",
+         "Exploration by runtime monitoring: 28 wire representation types (Ethernet ... 6LoWPAN fragments), ~2*10^5 (quick) / ~1.4*10^7 (thorough) generated values with boundary-biased fields; three passes per value (buffer independence + no panic, parse(emit(r)) == r, and parse(emit(parse(mutant))) == parse(mutant)). Every domain restriction applied by the generators is listed in the evidence file's assumptions.",
+         "Trusted: the generators and structural diff in harness/src/gen/wire.rs and harness/src/mon/c06.rs; smoltcp's own fill_checksum is used to keep mutants parsable. Known findings (IPHC traffic-class/flow-label never emitted, 802.15.4 layouts emit does not implement, truncated ICMPv4/NDISC quotes) are listed in known_findings.json by exact signature.",
+         "DESIGN.md §4 C06"),
+ "C07": ("runtime monitor: hand-written accessor tables for every exported packet view, fed with arbitrary bytes, every truncation and single-field corruption of a corpus of well-formed packets, hostile DNS names and option lists; panic / non-termination capture",
+         "Exploration by runtime monitoring: 25 view types x 303 accessor rows; ~1.8*10^6 (quick) / ~10^8 (thorough) inputs, each handed to every type: new_checked, every accessor applicable to the packet's own message type, Repr::parse with both checksum settings, Display and PrettyPrinter, all under catch_unwind with a helper-thread watchdog for calls that do not return. Profile chk keeps overflow checks and debug assertions on; thorough also runs the plain release profile.",
+         "Trusted: the applicability predicates in harness/src/mon/c07/tables.rs (taken from the accessors' documentation), the watchdog (15 s per call: 10^7 x the normal cost).",
+         "DESIGN.md §4 C07"),
+ "C08": ("runtime monitor: independent RFC 1071 reference vs. checksum::data/combine/pseudo_header and the fill/verify helpers of IPv4, UDP, TCP, ICMPv4, ICMPv6 over all lengths and alignments; emitted-valid and enforced parts are judged by the frame validator and corruption drivers listed in the evidence parts",
+         "Exploration by runtime monitoring: (a) every length 0..2048 (thorough 0..65535) at every start alignment 0..7 with random / all-zero / all-0xFF / single-non-zero-byte contents, combine over a boundary grid (thorough: all 2^32 pairs), pseudo headers v4/v6, fill_checksum followed by reference verification, verify_checksum against reference on checksum+-k and single bit flips, the UDP zero rule. Parts (b) emitted-valid and (c) enforced are separate parts of this monitor when present in the evidence file.",
+         "Trusted: the reference implementation in harness/src/mon/c08a.rs and harness/src/indep/cksum.rs (u64 accumulator over big-endian words, fold, complement).",
+         "DESIGN.md §4 C08"),
  "C01": ("runtime monitor: two real endpoints over a seeded faulty link, offset-keyed stream content compared at every recv (history + executable model)",
          "Exploration by runtime monitoring: 15 000 (quick) / 600 000 (thorough) seeded executions of two real smoltcp interfaces (IPv4/IPv6, IP and Ethernet media, MTU 68..1500, buffers 1 B..256 KiB with window scaling, none/Reno/CUBIC, Nagle, delayed ACK, timestamps) joined by a link that drops, duplicates, delays, reorders and corrupts one byte per seeded fate schedule; every byte handed to either application is compared with the peer's byte at that stream offset and Finished is only accepted once the peer closed and everything was handed over. Evidence reports bytes compared, retransmissions, reorderings, corruptions and sequence wraps actually observed.",
          "Trusted: the simulator and stream oracle (harness/src/sim/tcpsim.rs), the independent TCP/IP parser used for statistics. Corruption is single-byte (always detected). Executions not generated are not judged; ISN wrap coverage is whatever the seeded ISNs produce (counted in evidence).",
